@@ -41,6 +41,25 @@ CLAIMED["C20"] = dict(
     note="Trusted: CrossHair models, z3 5.1, cvc5 1.0, vf/ast2smt.py (validated per run), stdlib ipaddress/datetime. "
          "Bounds: IPv6 with <=2 symbolic nibbles per query; IPv4 canonical spellings; Time days<=60000.")
 
+CLAIMED["C15"] = dict(
+    level="model_checking", technique=E1, design="6/C15",
+    text="One-step inductive check: the process-wide registries are set to arbitrary lists of m distinct symbolic "
+         "32-bit ids (invariant: registry == everything issued), os.urandom is a stub returning the next element of a "
+         "symbolic list (any values, repeats allowed), one request of each class is created by the real constructors; "
+         "CrossHair shows for all values that both new ids are outside the registries and the registries grow by exactly "
+         "them. Answers / explicit-header requests are shown to draw nothing. Bounded histories add readable witnesses.",
+    note="Trusted: CrossHair, z3, the urandom stub contract. Bounds: m<=2/3 registry entries, d<=4/6 draws; histories "
+         "longer than the bound are covered by the inductive argument only as far as the registry is an unbounded container.")
+CLAIMED["C16"] = dict(
+    level="model_checking", technique=E1, design="6/C16",
+    text="One-step inductive check over all 32-bit (init, id, now) with a stubbed clock: a generation of each kind "
+         "(Session-Id AVP, Acct-Multi-Session-Id AVP, bulk origin update, typed message) with identity and previous "
+         "identity chosen symbolically must yield identity;high;low[;opt] with (high, low) outside the ghost set of "
+         "issued pairs and keep the (init, id) invariant; bounded sequences inside one clock second must be pairwise "
+         "distinct; bytes input is carried unchanged.",
+    note="Trusted: CrossHair, z3; decimal rendering of the counters is opaque (tokens recording value and format spec), "
+         "Python's str(int) trusted. Outside: identities containing ';', clock going backwards, counter beyond 2^32.")
+
 PENDING_REASON = "check not built yet in this session (planned in DESIGN.md section 6); no claim is made"
 NOT_APPLICABLE = {}
 
